@@ -256,7 +256,7 @@ fn damage_frame(name: &str, f: &[u8], rng: &mut Rng, deep: bool, pair_budget: us
 
 pub fn run(ctx: &Ctx, replay: Option<&J>) -> CheckResult {
     crate::crc::self_check();
-    let rule = "valid frames (all golden frames of /repo/testdata plus random-payload frames of lengths 0..=1023 sampled/edge, frames whose checksum is 0x000000 / 0xFFFFFF / 0xD30000 / ...) x \
+    let rule = "valid frames (all golden frames of /repo/testdata plus random-payload frames of lengths 0..=1023 sampled/edge, the shortest frames L=0..=10 with clear reserved bits and L=0..=2 with all 64 reserved-bit patterns, frames whose checksum is 0x000000 / 0xFFFFFF / 0xD30000 / ...) x \
         {every single bit in reserved bits/payload/checksum; all bit pairs for frames <=24 bytes, sampled pairs otherwise; random odd-weight \
         patterns 3..31; bursts of every length 2..=24 (first and last bit flipped, random interior) at every start (short frames / thorough) \
         or at region ends + sampled starts}; preamble and the 10 length bits are not damaged. oracle: MessageFrame::new == Err(NotValid), \
@@ -287,6 +287,16 @@ pub fn run(ctx: &Ctx, replay: Option<&J>) -> CheckResult {
         let class = if i % 5 == 4 { 5 } else { 2 };
         let p = crate::pool::payload_of_class(&mut rng, *l, class);
         frames.push((format!("random-L{}", l), crate::frame::frame_with_reserved(&p, if i % 3 == 0 { rng.below(64) as u8 } else { 0 })));
+    }
+    // the shortest frames (L = 0..=10) with every reserved bit clear and with all 64 reserved-bit patterns for L = 0, 1, 2
+    for l in 0..=10usize {
+        let p = crate::pool::payload_of_class(&mut rng, l, 2);
+        frames.push((format!("short-L{}-reserved-0", l), crate::frame::frame_with_reserved(&p, 0)));
+        if l <= 2 {
+            for r in 1..64u8 {
+                frames.push((format!("short-L{}-reserved-{}", l, r), crate::frame::frame_with_reserved(&p, r)));
+            }
+        }
     }
     // frames whose checksum is a special value (all-zero, all-one, 0xD3 bytes ...)
     for (k, target) in crate::pool::SPECIAL_CRCS.iter().enumerate() {
